@@ -536,8 +536,9 @@ def r09_10(prog: Program, rep: Report, rule="R09.10"):
         reuse_seen = False
         for p, r in P.returns(dps):
             gs = p.guards()
-            in_loop = any(e[0] == "loop" for e in p.events)
-            if proxy is not None and T.is_call_to(r, proxy.qualname) and not in_loop and any(g == cyc and pol for g, pol in gs) and r[2][:1] in ((("attr", node, "type"),), (("attr", node, "unwrapped"),)):
+            # (the callee is the proxy class by name and the path has decided `node.cyclic`: whether a scan of the table was
+            # spliced in before it -- `cls = Proxy if cyclic else _scan(t)` -- does not matter)
+            if proxy is not None and T.is_call_to(r, proxy.qualname) and any(g == cyc and pol for g, pol in gs) and r[2][:1] in ((("attr", node, "type"),), (("attr", node, "unwrapped"),)):
                 lazy = True
             if r[0] == "sub" and r[1] == ctxp:
                 reuse_seen = True
